@@ -42,8 +42,20 @@ class Site:
 
     @property
     def key(self):
-        # semantic key: function, form, degree of the compared quantity, constant (not the source text)
-        f = self.func.rsplit(".", 2)[-1] if self.func.startswith("coxeter.") else self.func
+        # semantic key: function, form, degree of the compared quantity, constant (not the source text).  A site inside a
+        # private helper (name starting with '_') is anchored at the nearest non-private caller on its call path, so that
+        # extracting a decision into a shared helper (or inlining it again) does not turn a listed finding into a new one.
+        anchored = self.func
+        if anchored.rsplit(".", 1)[-1].startswith("_") and self.path:
+            for q_ in reversed(self.path[:-1]):
+                if not q_.rsplit(".", 1)[-1].startswith("_"):
+                    anchored = q_
+                    break
+        f = anchored.rsplit(".", 2)[-1] if anchored.startswith("coxeter.") else anchored
+        if anchored is not self.func:
+            if self.k is None or self.c is None:
+                return f"{f}:{self.form}:{self.text}"
+            return f"{f}:{self.form}:k={self.k}:c={self.c}"
         if self.func.startswith("coxeter."):
             f = "polytri." + self.func.rsplit(".", 1)[-1] if "polytri" in self.func else self.func
         if self.k is None or self.c is None:
